@@ -160,3 +160,31 @@ Definition opt_eqb {A} (e : A -> A -> bool) (a b : option A) : bool :=
 Definition obs_eqb (a b : observation) : bool :=
   opt_eqb zzlist_eqb (o_changes a) (o_changes b) && ivlist_eqb (o_intervals a) (o_intervals b)
   && opt_eqb zz_eqb (o_single a) (o_single b).
+
+(* ---- histories whose values carry a field the caller's `equals` ignores ----
+   value at level x = (pw d segs x, x mod m): the second field drifts with the level;
+   `equals` compares the first field only (coarser than ==). *)
+Definition pw2 (d : Z) (segs : list (Z * Z)) (m : Z) (x : Z) : Z * Z := (pw d segs x, x mod m).
+Definition fst_eqb (a b : Z * Z) : bool := fst a =? fst b.
+
+Record observation2 := {
+  o2_changes : option (list (Z * (Z * Z)));
+  o2_single : option (Z * (Z * Z))
+}.
+
+(* case: (case, m); pred_value = (c_pred, 0) *)
+Definition run_case2 (cm : case * Z) : observation2 :=
+  let c := fst cm in
+  let g := pw2 (c_default c) (c_segs c) (snd cm) in
+  {| o2_changes := find_state_changes fst_eqb g (c_head c) (c_last c) (c_step c);
+     o2_single := find_state_change fst_eqb g (c_head c) (c_last c) (c_pred c, 0) |}.
+
+Definition zzz_eqb (a b : Z * (Z * Z)) : bool := (fst a =? fst b) && zz_eqb (snd a) (snd b).
+Fixpoint zzzlist_eqb (a b : list (Z * (Z * Z))) : bool :=
+  match a, b with
+  | [], [] => true
+  | x :: a', y :: b' => zzz_eqb x y && zzzlist_eqb a' b'
+  | _, _ => false
+  end.
+Definition obs2_eqb (a b : observation2) : bool :=
+  opt_eqb zzzlist_eqb (o2_changes a) (o2_changes b) && opt_eqb zzz_eqb (o2_single a) (o2_single b).
